@@ -53,7 +53,7 @@ func c12Check(p batchParams, out *batchObs) func(res *vrt.Result) *explore.Findi
 			for j, a := range as {
 				// sent to the region owning the key (the executor answers NSRE otherwise, which is
 				// legitimate only for a scripted 'not serving' outcome)
-				if a.Misrouted() && !strings.Contains(p.scripts[i], "N") && p.event != "droptable" && !(p.pre == "merge" && j == 0) && p.pre != "merge-half" {
+				if a.Misrouted() && !strings.Contains(p.scripts[i], "N") && p.event != "droptable" && !(p.pre == "merge" && j == 0) && p.pre != "merge-half" && p.pre != "two-merges" {
 					return &explore.Finding{Class: "call-sent-to-wrong-region-or-server", Msg: fmt.Sprintf("call %d attempt %d refused as not serving%s", i, j, show())}
 				}
 				if j > 0 {
@@ -280,6 +280,18 @@ func c12Units(thorough bool) []*explore.Unit {
 			units = append(units, &explore.Unit{Name: p.String(), Bound: 0, Opt: vrt.Options{MaxSteps: 60000},
 				Body: batchBody(p, out), Check: c12Check(p, out), Sig: batchSig(out)})
 		}
+	}
+	// two merges while two single gets locate the merged regions concurrently: a region a call
+	// of the batch holds may be replaced more than once while the batch is being located
+	{
+		p := batchParams{layout: "spread", keys: []string{"d1", "b1", "a1", "d1"}, kinds: []string{"put", "put", "put", "put"}, scripts: []string{"", "", "", ""}, ownCtx: -1, pre: "two-merges"}
+		out := &batchObs{}
+		b := 1
+		if thorough {
+			b = 2
+		}
+		units = append(units, &explore.Unit{Name: p.String(), Bound: b, Opt: vrt.Options{MaxSteps: 60000},
+			Body: batchBody(p, out), Check: c12Check(p, out), Sig: batchSig(out)})
 	}
 	// cancellation / Close at every scheduling step of the batch (see batchStepUnits)
 	return append(units, batchStepUnits(thorough, c12Check)...)
